@@ -189,3 +189,23 @@ func SameContent(a, b *Content) string {
 	}
 	return ""
 }
+
+// CompareModelDocs checks only that every document of a Content carries the
+// stored fields its uid was written with.
+func CompareModelDocs(c *Content, stored map[string]map[string]string) string {
+	if int(c.Count) != len(c.Docs) {
+		return fmt.Sprintf("Count()=%d but match-all enumerates %d documents", c.Count, len(c.Docs))
+	}
+	for _, d := range c.Docs {
+		exp := stored[d.UID]
+		if exp == nil {
+			return fmt.Sprintf("document uid=%s unknown to the workload", d.UID)
+		}
+		for k, v := range exp {
+			if d.Fields[k] != v {
+				return fmt.Sprintf("document uid=%s stored field %s=%q, expected %q", d.UID, k, d.Fields[k], v)
+			}
+		}
+	}
+	return ""
+}
